@@ -45,6 +45,7 @@ CONF = dict(
                 'request that asks for it), not by the property oracle; receive-time collisions cannot be produced through the kernel (hook-level kinds only). No axioms.'),
     explanation='oracle clauses: reply carries the receive stamp, fresh for the client; basic/interleaved shape; interleaved iff own record with that receive stamp and rx != tx; served transmit stamp later than its receive stamp; reported transmit time recorded, unread one dropped; listener oracle: basic/interleaved shape, interleaved only if an earlier reply to the same client carried the named receive stamp (isolation), served transmit stamp later than it, own receive stamp different; slow link: unread exchange dropped not served, served stamp between the software transmit time of its exchange and the client\'s receipt of that reply',
     timeout_quick=900, timeout_thorough=3000,
+    extra_thorough=[dict(cmd='c06race', race=True)],
     no_floor=['lsn.slowlink', 'lsn.fallback'],
     min_cases={'lsn.hist': 48, 'tss.flood': 1, 'tss.full': 1, 'tss.hist': 210, 'tss.lockdiscipline': 1},
 )
